@@ -398,18 +398,19 @@ func c25DeadAddrOK() bool {
 // ---------------------------------------------------------------- running a case
 
 type c25Result struct {
-	Viol      *c25Violation     `json:"violation"`
-	Stats     map[string]int64  `json:"stats"`
-	CaughtUp  bool              `json:"fully_caught_up"`
-	Present   map[string]string `json:"final_paths"`
-	History   []string          `json:"history"`
-	Tainted   bool              `json:"tainted_by_open_finding"`
-	Runs      int               `json:"runs"`
-	TimedOut  bool              `json:"timed_out,omitempty"`
+	Viol     *c25Violation     `json:"violation"`
+	Stats    map[string]int64  `json:"stats"`
+	CaughtUp bool              `json:"fully_caught_up"`
+	Present  map[string]string `json:"final_paths"`
+	History  []string          `json:"history"`
+	Tainted  bool              `json:"tainted_by_open_finding"`
+	Runs     int               `json:"runs"`
+	TimedOut bool              `json:"timed_out,omitempty"`
 }
 
 func c25WaitIdle(p *Puller) bool {
 	deadline := time.Now().Add(180 * time.Second)
+	nap := 50 * time.Microsecond
 	for {
 		if p.inflightCount.Load() == 0 && len(p.queue) == 0 {
 			p.catchupPathsMu.Lock()
@@ -422,7 +423,10 @@ func c25WaitIdle(p *Puller) bool {
 		if time.Now().After(deadline) {
 			return false
 		}
-		time.Sleep(100 * time.Microsecond)
+		time.Sleep(nap)
+		if nap < 2*time.Millisecond {
+			nap += nap / 2
+		}
 	}
 }
 
@@ -812,6 +816,9 @@ func TestVerifC25_FaultSequences(t *testing.T) {
 // TestVerifC25_Enumerated walks every sequence of up to N outcomes from a fixed
 // representative set for a single small file (deterministic fault enumeration).
 func TestVerifC25_Enumerated(t *testing.T) {
+	if sh := os.Getenv("VERIF_SHARD"); sh != "" && sh != "0" {
+		t.Skip("the enumeration is identical in every shard; shard 0 runs it")
+	}
 	outs := []c25Outcome{
 		{Kind: "success"}, {Kind: "truncate", K: 0}, {Kind: "truncate", K: 5}, {Kind: "corrupt", J: 2},
 		{Kind: "corrupttrunc", K: 5, J: 1}, {Kind: "dialfail"}, {Kind: "errack", Code: "backend"},
@@ -834,9 +841,13 @@ func TestVerifC25_Enumerated(t *testing.T) {
 	}
 	rec(nil, depth)
 	pres := []string{"none", "part-prefix", "part-full-wrong"}
+	retries := []int{2}
+	if verifkit.Tier() == "thorough" {
+		retries = []int{1, 2, 3}
+	}
 	n := 0
 	for _, pre := range pres {
-		for _, retry := range []int{2, 3} {
+		for _, retry := range retries {
 			for _, seq := range seqs {
 				if pre != "none" && len(seq) > 2 {
 					continue
